@@ -65,6 +65,14 @@ CallerWrite(o, t) ==
    /\ heap' = [heap EXCEPT ![o].t = t]
    /\ UNCHANGED <<model, params, runs, hist>>
 
+\* the caller gives a tensor it owns another shape in place (same object, same elements) while no Run is using it
+CallerReshape(o, shape) ==
+   /\ o \in 1..Len(heap) /\ heap[o].owner = "caller"
+   /\ \A r \in RunIds : runs[r].st # "running" \/ \A n \in DOMAIN runs[r].ins : runs[r].ins[n] # o
+   /\ Size(shape) = Size(heap[o].t.shape)
+   /\ heap' = [heap EXCEPT ![o].t.shape = shape]
+   /\ UNCHANGED <<model, params, runs, hist>>
+
 \* RunBegin: validateShapes, then the per-Run environment (a new map; the tensors in it are shared references)
 RunBegin(r, ins) ==        \* ins : name -> ObjId of caller objects
    /\ model.loaded /\ runs[r].st = "idle"
